@@ -26,7 +26,10 @@ MODULES = {
     "common": "common.py", "map": "map.py", "flat_map": "flat_map.py", "retry": "retry.py", "poll": "poll.py",
     "throttle": "throttle.py", "timeout": "timeout.py", "cos": "cancel_on_shutdown.py", "helpers": "helpers.py",
     "event": "event.py", "fbool": "futures/bool.py", "fzip": "futures/zip.py", "fbase": "futures/base.py",
-    "metrics": "metrics/__init__.py",
+    "metrics": "metrics/__init__.py", "metrics_prom": "metrics/prometheus.py",
+    "fproxy": "futures/proxy.py", "fnocancel": "futures/nocancel.py", "fapply": "futures/apply.py", "fmap": "futures/map.py",
+    "fsequence": "futures/sequence.py", "ftimeout": "futures/timeout.py", "fcheck": "futures/check.py",
+    "bind": "bind.py", "wrap": "wrap.py", "wrapped": "wrapped.py", "executors": "executors.py", "sync": "sync.py",
 }
 
 
